@@ -494,6 +494,25 @@ def rule_r8(chk):
                f"{u} has one entry per filtered period (preallocated by num_periods, or an unfiltered comprehension over such arrays)", km.loc(coi))
 
 
+def rule_r10(chk, rid="C03-R10"):
+    chk.rule(rid, "every pass of the filter covers every filtered period: the loops over t in predict, correct_for_unknown_init, update and "
+             "smooth iterate range(num_periods) (reversed for the smoother) - the per-period arrays they fill or correct have exactly "
+             "that many entries, and forecasts past the last observation are conditional moments too", floor=4, shape_independent=True)
+    km = chk.repo.mod(KMOD)
+    for q in ("predict", "correct_for_unknown_init", "update", "smooth"):
+        f = km.func(q)
+        chk.saw(km, q)
+        loops = [n for n in walk_no_nested(f) if isinstance(n, ast.For) and isinstance(n.target, ast.Name) and n.target.id == "t"]
+        if len(loops) != 1:
+            chk.undecided(rid, f"fords.kalmans.{q}[loop over periods]", f"{len(loops)} loops over t", km.loc(f))
+            continue
+        it = squash(loops[0].iter)
+        allowed = {"range(num_periods)", "range(cache.num_periods)", "reversed(range(num_periods))", "reversed(range(cache.num_periods))",
+                   "range(cache.num_periods-1,-1,-1)", "range(num_periods-1,-1,-1)"}
+        chk.ob(rid, f"fords.kalmans.{q}[loop over periods]", it in allowed,
+               f"for t in {unparse(loops[0].iter)}" + ("" if it in allowed else ": not every filtered period is visited"), km.loc(loops[0]), sure=True)
+
+
 def run(chk):
     chk.guard(rule_r1_r2, chk)
     chk.guard(rule_r7, chk)
@@ -501,6 +520,9 @@ def run(chk):
     chk.guard(rule_r5, chk)
     chk.guard(rule_r6, chk)
     chk.guard(rule_r8, chk)
+    chk.guard(rule_r10, chk)
+    from . import c01
+    chk.guard(c01.rule_r4, chk, rid="C03-R9")
     from .. import args as _args
     chk.guard(_args.apply, chk, "C03-R90", {'fords'}, 1)
     chk.assumptions = [
